@@ -59,6 +59,7 @@ type pkg struct {
 	Oracle   bool   // the statement-level oracles apply (a declaration exists and is unambiguous)
 	Base     string // EPUB: directory of the package file
 	Notes    []string
+	Twins    []twin // near-name members (twins.go)
 }
 
 func (p *pkg) add(name string, data string, spec string) {
